@@ -375,7 +375,13 @@ Definition store_value (t : token) (c : N) (id : N) (v : result) : M result :=
   if c_const cl then rt_error t c else
   v' <- implicit_cast (c_type cl) v ;;
   if negb (dt_eq (c_type cl) (r_type v')) then rt_error t c
-  else assign_val hfuel id v' ;;; ret res_none.
+  else
+    ok <- (match c_val cl, r_val v' with
+           | PRec _ dc, Some (PRec _ sc) => if dt_is (c_type cl) KRec then same_layout hfuel dc sc else ret true
+           | _, _ => ret true
+           end) ;;
+    if negb ok then rt_error t c else
+    assign_val hfuel id v' ;;; ret res_none.
 
 
 Definition expect_holder_var (t : token) (c : N) (h : holder) : M N :=
@@ -505,7 +511,9 @@ Definition eval_body (self : evs) (n : node) (c : N) : M result :=
             a1 <- get_arr did ;; a2 <- get_arr sid ;;
             if negb (dt_eq (a_type a1) (a_type a2)) then rt_error t c
             else if negb (dims_eqb (a_dims a1) (a_dims a2)) then rt_error t c
-            else copy_array_data hfuel did sid ;;; ret res_none
+            else ok <- arr_layout (same_layout hfuel) a1 a2 ;;
+                 if negb ok then rt_error t c else
+                 copy_array_data hfuel did sid ;;; ret res_none
           end
         end
       | _ => crash "unreachable: handler only fires for an AccessNode"
@@ -996,6 +1004,12 @@ Definition bind_args_body (self : evs) (t : token) (params : list (str * dtype *
          end
        else
          id <- ev_new_var self pn (r_type v') false fc ;;
+         ncl <- get_cell id ;;
+         ok <- (match c_val ncl, r_val v' with
+                | PRec _ dc, Some (PRec _ sc) => if dt_is (c_type ncl) KRec then same_layout hfuel dc sc else ret true
+                | _, _ => ret true
+                end) ;;
+         if negb ok then rt_error t c else
          assign_val hfuel id v' ;;;
          add_var fc pn id) ;;;
       ev_bind_args self t pr ar vr c fc
